@@ -2394,7 +2394,9 @@ def open_jsonl(
       path,
       mode,
       serializer=to_json_str,
-      deserializer=from_json_str,
+      # NOTE: like `pg.load`, so that every record that can be added can be
+      # read back.
+      deserializer=lambda s: from_json_str(s, allow_partial=True),
       **kwargs
   )
 
